@@ -20,7 +20,7 @@ for id in $ids; do
     git -C /repo apply $d/patch.diff || { echo "$id apply-failed"; git -C /repo checkout -- .; continue; }
   fi
   t0=$(date +%s)
-  timeout 2400 ./check $prop --tier quick > /tmp/official_$id.log 2>&1; rc=$?
+  VERIF_EVIDENCE_DIR=/tmp/verif-evidence-mutated timeout 2400 ./check $prop --tier quick > /tmp/official_$id.log 2>&1; rc=$?
   nv=$(grep -c '^VIOLATION' /tmp/official_$id.log)
   if [ -n "$cfile" ]; then cp /tmp/official.keep.$$ /repo/$cfile; rm -f /tmp/official.keep.$$; /venv/bin/python -m harness.tlabind.build >/dev/null 2>&1
   else git -C /repo checkout -- .; fi
